@@ -7,6 +7,7 @@ package main
 
 import (
 	"fmt"
+	"go/constant"
 	"go/token"
 	"go/types"
 	"sort"
@@ -513,6 +514,14 @@ func (fc *FuncCtx) formula0(v ssa.Value) *bddNode {
 			}
 		case *ssa.Lookup:
 			if x.Index == 1 {
+				// membership in a constant package-level table: one of its keys
+				if ents, ok := fc.tableEntries(t); ok {
+					acc := B.False
+					for _, e := range ents {
+						acc = B.Or(acc, fc.eqFormula(t, t.Index, e.k))
+					}
+					return acc
+				}
 				name := "ok:" + fc.AP(t)
 				return fc.A.atom(name, "ok", fc, t, []ssa.Value{t.X, t.Index}, fc.AP(t.X), fc.AP(t.Index))
 			}
@@ -600,6 +609,22 @@ func (fc *FuncCtx) binopFormula(x *ssa.BinOp) *bddNode {
 }
 
 func (fc *FuncCtx) emptyAtom(in ssa.Instruction, s ssa.Value) *bddNode {
+	// cmp.Or(a, b) is empty when all its operands are
+	if c, ok := s.(*ssa.Call); ok {
+		if ops := cmpOrOperands(c); len(ops) >= 2 {
+			acc := fc.A.B.True
+			for _, o := range ops {
+				if isEmptyStringConst(o) {
+					continue
+				}
+				if _, isC := o.(*ssa.Const); isC {
+					return fc.A.B.False
+				}
+				acc = fc.A.B.And(acc, fc.emptyAtom(in, o))
+			}
+			return acc
+		}
+	}
 	sa := fc.AP(s)
 	return fc.A.atom("empty("+sa+")", "empty", fc, in, []ssa.Value{s}, sa)
 }
@@ -663,6 +688,13 @@ func (fc *FuncCtx) eqFormula(in ssa.Instruction, a, b ssa.Value) *bddNode {
 		if f, ok := fc.callResultGated(b, func(sub *FuncCtx, rv ssa.Value) *bddNode { return sub.eqFormula(in, a, rv) }); ok {
 			return f
 		}
+	}
+	// a value looked up in a constant package-level table compared with a constant: the keys that map to it
+	if f, ok := fc.tableLookupEq(in, a, b); ok {
+		return f
+	}
+	if f, ok := fc.tableLookupEq(in, b, a); ok {
+		return f
 	}
 	// phi operands: expand by gating
 	if ph, ok := a.(*ssa.Phi); ok {
@@ -802,6 +834,167 @@ func arrayLiteralElems(al *ssa.Alloc) []ssa.Value {
 		}
 	}
 	return elems
+}
+
+type mapEntry struct{ k, v ssa.Value }
+
+// tableEntries: t looks a key up in a package-level map that is a constant table (globalMapEntries).
+func (fc *FuncCtx) tableEntries(t *ssa.Lookup) ([]mapEntry, bool) {
+	ld, ok := t.X.(*ssa.UnOp)
+	if !ok || ld.Op != token.MUL {
+		return nil, false
+	}
+	g, ok := ld.X.(*ssa.Global)
+	if !ok {
+		return nil, false
+	}
+	return fc.A.P.globalMapEntries(g)
+}
+
+// tableLookupEq: look is table[x] (or the value component of v, ok := table[x]) for a constant table and k a constant:
+// the disjunction of x == key over the keys mapped to k; for the zero value also "x is none of the keys".
+func (fc *FuncCtx) tableLookupEq(in ssa.Instruction, look, k ssa.Value) (*bddNode, bool) {
+	kc, ok := k.(*ssa.Const)
+	if !ok {
+		return nil, false
+	}
+	var t *ssa.Lookup
+	switch x := look.(type) {
+	case *ssa.Lookup:
+		if x.CommaOk {
+			return nil, false
+		}
+		t = x
+	case *ssa.Extract:
+		l, ok := x.Tuple.(*ssa.Lookup)
+		if !ok || x.Index != 0 {
+			return nil, false
+		}
+		t = l
+	default:
+		return nil, false
+	}
+	ents, ok := fc.tableEntries(t)
+	if !ok {
+		return nil, false
+	}
+	B := fc.A.B
+	acc, any := B.False, B.False
+	for _, e := range ents {
+		vc, ok := e.v.(*ssa.Const)
+		if !ok {
+			return nil, false
+		}
+		hit := fc.eqFormula(in, t.Index, e.k)
+		any = B.Or(any, hit)
+		if constString(vc) == constString(kc) {
+			acc = B.Or(acc, hit)
+		}
+	}
+	if isZeroConst(kc) {
+		acc = B.Or(acc, B.Not(any))
+	}
+	return acc, true
+}
+
+func isZeroConst(c *ssa.Const) bool {
+	if c.Value == nil {
+		return true
+	}
+	switch c.Value.Kind() {
+	case constant.String:
+		return constant.StringVal(c.Value) == ""
+	case constant.Bool:
+		return !constant.BoolVal(c.Value)
+	case constant.Int, constant.Float:
+		return constant.Sign(c.Value) == 0
+	}
+	return false
+}
+
+var mapEntriesCache = map[*ssa.Global][]mapEntry{}
+var mapEntriesKnown = map[*ssa.Global]bool{}
+
+// globalMapEntries: the entries of a package-level map variable that is assigned exactly once, by its package
+// initialiser, from a literal with constant keys, and that module functions only read (lookup, range, len).
+func (p *Prog) globalMapEntries(g *ssa.Global) ([]mapEntry, bool) {
+	if mapEntriesKnown[g] {
+		e := mapEntriesCache[g]
+		return e, e != nil
+	}
+	mapEntriesKnown[g] = true
+	if g.Pkg == nil {
+		return nil, false
+	}
+	if _, isMap := g.Type().(*types.Pointer).Elem().Underlying().(*types.Map); !isMap {
+		return nil, false
+	}
+	for _, fn := range p.modFns {
+		isInit := fn.Name() == "init" && fn.Pkg == g.Pkg
+		for _, b := range fn.Blocks {
+			for _, in := range b.Instrs {
+				if st, ok := in.(*ssa.Store); ok && st.Addr == ssa.Value(g) && !isInit {
+					return nil, false
+				}
+				ld, ok := in.(*ssa.UnOp)
+				if !ok || ld.Op != token.MUL || ld.X != ssa.Value(g) || ld.Referrers() == nil {
+					continue
+				}
+				for _, rf := range *ld.Referrers() {
+					switch u := rf.(type) {
+					case *ssa.Lookup:
+						if u.X != ssa.Value(ld) {
+							return nil, false
+						}
+					case *ssa.Range:
+					case *ssa.DebugRef:
+					case *ssa.Call:
+						if bi, ok := u.Call.Value.(*ssa.Builtin); !ok || bi.Name() != "len" {
+							return nil, false
+						}
+					default:
+						return nil, false
+					}
+				}
+			}
+		}
+	}
+	init := g.Pkg.Func("init")
+	if init == nil {
+		return nil, false
+	}
+	var out []mapEntry
+	n := 0
+	for _, b := range init.Blocks {
+		for _, in := range b.Instrs {
+			st, ok := in.(*ssa.Store)
+			if !ok || st.Addr != ssa.Value(g) {
+				continue
+			}
+			n++
+			mm, ok := st.Val.(*ssa.MakeMap)
+			if !ok || mm.Referrers() == nil {
+				return nil, false
+			}
+			for _, rf := range *mm.Referrers() {
+				switch u := rf.(type) {
+				case *ssa.MapUpdate:
+					if _, isC := u.Key.(*ssa.Const); !isC || u.Map != ssa.Value(mm) {
+						return nil, false
+					}
+					out = append(out, mapEntry{u.Key, u.Value})
+				case *ssa.Store, *ssa.DebugRef:
+				default:
+					return nil, false
+				}
+			}
+		}
+	}
+	if n != 1 || len(out) == 0 {
+		return nil, false
+	}
+	mapEntriesCache[g] = out
+	return out, true
 }
 
 // globalSliceElems: the elements of a package-level slice variable that is assigned exactly once, by its package
